@@ -1,43 +1,108 @@
 import CollectionsC.Properties.C06Deque
 import CollectionsC.Proofs.DequeIndep
-/-! # C14 (deque part) — only the configured allocator triple
+/-! # C14 (deque part) — only the allocator triple the deque was given
 
-The model routes every allocation and release of `cc_deque.c` through `Mem.alloc`/`Mem.free` (the
-configured triple); `Mem.libc` counts events that would go through the C library allocator.  That the C
-code really has no such event is what the harness observes (`libc=a0 f0` on every line, L2); here:
-the model has none (`libc_invariant`), for every operation, builder and history, and its results depend
-on the ledger only through the refusal schedule (`allocator_independent`) — so a container on a pool that
-never refuses behaves exactly like the same container on malloc.  No D3 exception: both statements are
-about the physical model, not about the ideal list. -/
+The model is triple-aware: a deque stores the triple copied from its configuration (`Deque.triple`:
+`.conf` for `cc_deque_new_conf` with the caller's `mem_alloc/mem_calloc/mem_free`, `.libc` for
+`cc_deque_new`) and every allocation and release of the model goes through `Mem.allocT d.triple` /
+`Mem.freeT d.triple`, exactly where the C code calls `deque->mem_alloc/mem_calloc/mem_free`; the builders
+copy the triple where the C code copies the three function pointers (`copy->mem_alloc = deque->mem_alloc`,
+`conf.mem_alloc = deque->mem_alloc` in `cc_deque_filter` — defect D10 was a call of the default constructor
+there, which in this model would be `.libc`).  The ledger counts C-library events separately
+(`libc`, `lalloc`, `lfree`, `liveLibc`), so the statements below are falsifiable: a model function that used
+the wrong triple would change the other side of the ledger.  That the C code agrees with the model is the
+correspondence check (`libc=a0 f0 llive=0` on every line of a conf session, and the mirror image for
+`new_default` sessions). -/
 namespace CC.Properties.C14Deque
 open CC CC.Properties.C05
 
-/-- **libc_invariant**, one step -/
-theorem step_libc_invariant (d : Deque) (m : Mem) (op : Op) (hi : d.Inv) : (stepM d m op).2.2.libc = m.libc :=
-  (C06Deque.step_safe d m op hi).2.2.2.1
+/-- **conf_uses_only_conf**: a deque on the configured triple never causes a C-library event — no
+allocation, no release, no block owned there — in any operation -/
+theorem conf_uses_only_conf (d : Deque) (m : Mem) (op : Op) (hi : d.Inv) (ht : d.triple = .conf) :
+    (stepM d m op).2.2.libc = m.libc ∧ (stepM d m op).2.2.lalloc = m.lalloc ∧
+    (stepM d m op).2.2.lfree = m.lfree ∧ (stepM d m op).2.2.liveLibc = m.liveLibc := by
+  have h := (C06Deque.step_safe d m op hi).2.1.2.2.2
+  rw [ht] at h
+  exact h
 
-/-- **libc_invariant**, histories -/
-theorem history_libc_invariant (ops : List Op) (d : Deque) (m : Mem) (hi : d.Inv) :
-    (runM d m ops).2.2.libc = m.libc := by
-  induction ops generalizing d m with
-  | nil => rfl
-  | cons op ops ih =>
-    obtain ⟨s1, s2⟩ := C06Deque.step_safe d m op hi
-    simp only [runM]
-    rw [ih _ _ s1, s2.2.2.1]
+/-- **default_uses_only_libc**: a deque on the C library triple never touches the configured allocator —
+`live`, `nalloc`, `nfree`, the refusal counter and the schedule are unchanged — and therefore no refusal is
+possible: it is never blocked below the capacity limit -/
+theorem default_uses_only_libc (d : Deque) (m : Mem) (op : Op) (hi : d.Inv) (ht : d.triple = .libc) :
+    ((stepM d m op).2.2.live = m.live ∧ (stepM d m op).2.2.nalloc = m.nalloc ∧
+      (stepM d m op).2.2.nfree = m.nfree ∧ (stepM d m op).2.2.nrefused = m.nrefused ∧
+      (stepM d m op).2.2.sched = m.sched) ∧
+    (d.cap ≠ Gen.MAX_POW_TWO → blocked d m op = false) := by
+  have h := (C06Deque.step_safe d m op hi).2.1.2.2.2
+  rw [ht] at h
+  refine ⟨h, fun hc => ?_⟩
+  cases hb : blocked d m op
+  · rfl
+  · exfalso
+    obtain ⟨_, h2⟩ := (blocked_iff d m op hi).mp hb
+    rcases h2 with h2 | h2
+    · rw [ht] at h2; simp [Mem.allocT] at h2
+    · cases op <;> first | exact hc h2 | exact h2.elim
 
-/-- constructor, destructor and the derived-container builders (`copy_shallow`, `copy_deep`, `filter`),
-iterator and zip insertion: the header and buffer of every derived deque come from the same triple -/
-theorem builders_libc_invariant (d d2 : Deque) (it : Deque.Iter) (confCap x y : Nat) (cp : Option (Nat → Nat))
-    (p : Nat → Bool) (m : Mem) (hi : d.Inv) (h2 : d2.Inv) :
-    (Deque.new confCap m).2.2.libc = m.libc ∧ (d.destroy m).libc = m.libc ∧ (d.copy cp m).2.2.libc = m.libc ∧
-    (d.filter p m).2.2.libc = m.libc ∧ (Deque.iterAdd it d x m).2.2.2.libc = m.libc ∧
-    (Deque.zipAdd it d d2 x y m).2.2.2.2.libc = m.libc :=
-  ⟨Deque.new_libc confCap m, Deque.destroy_libc d m, Deque.copy_libc d cp m hi, Deque.filter_libc d p m hi,
-    (Deque.iterAdd_safe it d x m hi).2.1.2.2.1, (Deque.zipAdd_safe it d d2 x y m hi h2).2.2.1.2.2.1⟩
+/-- both, for whole histories (any arguments, any schedule) -/
+theorem history_uses_only_own_triple (ops : List Op) (d : Deque) (m : Mem) (hi : d.Inv) :
+    (d.triple = .conf → (runM d m ops).2.2.libc = m.libc ∧ (runM d m ops).2.2.lalloc = m.lalloc ∧
+      (runM d m ops).2.2.lfree = m.lfree ∧ (runM d m ops).2.2.liveLibc = m.liveLibc) ∧
+    (d.triple = .libc → (runM d m ops).2.2.live = m.live ∧ (runM d m ops).2.2.nalloc = m.nalloc ∧
+      (runM d m ops).2.2.nfree = m.nfree ∧ (runM d m ops).2.2.nrefused = m.nrefused ∧
+      (runM d m ops).2.2.sched = m.sched) := by
+  have h := (C06Deque.history_nofault ops d m hi).2.1.2.2.2
+  exact ⟨fun ht => by rw [ht] at h; exact h, fun ht => by rw [ht] at h; exact h⟩
+
+/-- **derived_inherits_triple**: constructor, copies and filter results carry the triple they were given /
+the source's triple, allocate their two blocks through it and nothing through the other one; an operation
+never changes a deque's triple -/
+theorem derived_inherits_triple (d : Deque) (confCap : Nat) (t : Triple) (cp : Option (Nat → Nat)) (p : Nat → Bool)
+    (m : Mem) (hi : d.Inv) :
+    (∀ c, (Deque.new confCap t m).2.1 = some c → c.triple = t) ∧
+    Deque.otherSideSame t (Deque.new confCap t m).2.2 m ∧
+    (∀ c, (d.copy cp m).2.1 = some c → c.triple = d.triple) ∧
+    Deque.otherSideSame d.triple (d.copy cp m).2.2 m ∧
+    (∀ c, (d.filter p m).2.1 = some c → c.triple = d.triple) ∧
+    Deque.otherSideSame d.triple (d.filter p m).2.2 m ∧
+    (∀ op, (stepM d m op).2.1.triple = d.triple) := by
+  obtain ⟨b1, b2, b3⟩ := C06Deque.builders_ledger d confCap t cp p m hi
+  refine ⟨?_, ?_, ?_, ?_, ?_, ?_, fun op => step_triple d m op⟩
+  · intro c hc
+    rcases b1 with ⟨c', e, _, h, _⟩ | ⟨e, _⟩
+    · rw [e] at hc; cases hc; exact h
+    · rw [e] at hc; cases hc
+  · rcases b1 with ⟨_, _, _, _, h⟩ | ⟨_, h⟩
+    · exact h.2.2.2
+    · exact h.2.2.2
+  · intro c hc
+    rcases b2 with ⟨c', e, _, h, _⟩ | ⟨e, _⟩
+    · rw [e] at hc; cases hc; exact h
+    · rw [e] at hc; cases hc
+  · rcases b2 with ⟨_, _, _, _, h⟩ | ⟨_, h⟩
+    · exact h.2.2.2
+    · exact h.2.2.2
+  · intro c hc
+    rcases b3 with ⟨c', e, _, h, _⟩ | ⟨e, _⟩
+    · rw [e] at hc; cases hc; exact h
+    · rw [e] at hc; cases hc
+  · rcases b3 with ⟨_, _, _, _, h⟩ | ⟨_, h⟩
+    · exact h.2.2.2
+    · exact h.2.2.2
+
+/-- destructor and iterator insertions: through the deque's own triple; zip insertion over two deques:
+each grows on its own triple, so a side of the ledger neither deque uses stays untouched -/
+theorem destroy_and_iterators_own_triple (d d2 : Deque) (it : Deque.Iter) (x y : Nat) (m : Mem) (hi : d.Inv)
+    (h2 : d2.Inv) (hlive : 2 ≤ Deque.liveOf d.triple m) :
+    Deque.otherSideSame d.triple (d.destroy m) m ∧
+    Deque.otherSideSame d.triple (Deque.iterAdd it d x m).2.2.2 m ∧
+    (d.triple = .conf → d2.triple = .conf → Deque.otherSideSame .conf (Deque.zipAdd it d d2 x y m).2.2.2.2 m) ∧
+    (d.triple = .libc → d2.triple = .libc → Deque.otherSideSame .libc (Deque.zipAdd it d d2 x y m).2.2.2.2 m) :=
+  ⟨(Deque.destroy_ledger d m hlive).2.2.2, (Deque.iterAdd_safe it d x m hi).2.1.2.2.2,
+    (Deque.zipAdd_safe it d d2 x y m hi h2).2.2.1.2.1, (Deque.zipAdd_safe it d d2 x y m hi h2).2.2.1.2.2⟩
 
 /-- **allocator_independent**, one step: two ledgers with the same refusal schedule give the same status,
-the same out-value, the same physical state and again equal schedules -/
+the same out-value, the same physical state and again equal schedules (no invariant needed) -/
 theorem step_allocator_independent (d : Deque) (m m' : Mem) (op : Op) (h : m.sched = m'.sched) :
     (stepM d m op).1 = (stepM d m' op).1 ∧ (stepM d m op).2.1 = (stepM d m' op).2.1 ∧
     (stepM d m op).2.2.sched = (stepM d m' op).2.2.sched := by
@@ -90,9 +155,9 @@ theorem history_allocator_independent (ops : List Op) (d : Deque) (m m' : Mem) (
     exact ⟨by rw [r1], r2⟩
 
 /-- the same for the constructor, the builders and the iterator operations -/
-theorem builders_allocator_independent (d d2 : Deque) (it : Deque.Iter) (confCap x y : Nat)
+theorem builders_allocator_independent (d d2 : Deque) (it : Deque.Iter) (confCap x y : Nat) (t : Triple)
     (cp : Option (Nat → Nat)) (p : Nat → Bool) (m m' : Mem) (h : m.sched = m'.sched) :
-    ((Deque.new confCap m).1 = (Deque.new confCap m').1 ∧ (Deque.new confCap m).2.1 = (Deque.new confCap m').2.1) ∧
+    ((Deque.new confCap t m).1 = (Deque.new confCap t m').1 ∧ (Deque.new confCap t m).2.1 = (Deque.new confCap t m').2.1) ∧
     ((d.copy cp m).1 = (d.copy cp m').1 ∧ (d.copy cp m).2.1 = (d.copy cp m').2.1) ∧
     ((d.filter p m).1 = (d.filter p m').1 ∧ (d.filter p m).2.1 = (d.filter p m').2.1) ∧
     ((Deque.iterAdd it d x m).1 = (Deque.iterAdd it d x m').1 ∧ (Deque.iterAdd it d x m).2.1 = (Deque.iterAdd it d x m').2.1 ∧
@@ -100,11 +165,18 @@ theorem builders_allocator_independent (d d2 : Deque) (it : Deque.Iter) (confCap
     ((Deque.zipAdd it d d2 x y m).1 = (Deque.zipAdd it d d2 x y m').1 ∧
       (Deque.zipAdd it d d2 x y m).2.2.1 = (Deque.zipAdd it d d2 x y m').2.2.1 ∧
       (Deque.zipAdd it d d2 x y m).2.2.2.1 = (Deque.zipAdd it d d2 x y m').2.2.2.1) := by
-  obtain ⟨n1, n2, _⟩ := Deque.new_indep confCap m m' h
+  obtain ⟨n1, n2, _⟩ := Deque.new_indep confCap t m m' h
   obtain ⟨c1, c2, _⟩ := Deque.copy_indep d cp m m' h
   obtain ⟨f1, f2, _⟩ := Deque.filter_indep d p m m' h
   obtain ⟨i1, i2, i3, _⟩ := Deque.iterAdd_indep it d x m m' h
   obtain ⟨z1, _, z3, z4, _⟩ := Deque.zipAdd_indep it d d2 x y m m' h
   exact ⟨⟨n1, n2⟩, ⟨c1, c2⟩, ⟨f1, f2⟩, ⟨i1, i2, i3⟩, ⟨z1, z3, z4⟩⟩
+
+/-- non-vacuity / falsifiability: growing a full deque on the configured triple leaves the C-library side
+at zero, while the same deque on the C-library triple records one C-library allocation and one release -/
+example :
+    (stepM (Deque.mk 2 2 1 1 [12, 11] .conf) { live := 2 } (.addLast 5)).2.2.libc = 0 ∧
+    (stepM (Deque.mk 2 2 1 1 [12, 11] .libc) { liveLibc := 2 } (.addLast 5)).2.2.libc = 2 ∧
+    (stepM (Deque.mk 2 2 1 1 [12, 11] .libc) { liveLibc := 2 } (.addLast 5)).2.2.nalloc = 0 := by decide
 
 end CC.Properties.C14Deque
